@@ -293,16 +293,16 @@ theorem rerun_effective (T : Tables) (hwf : T.WF = true) (hnd : (T.configurable.
 
 /-! ### the view of a concrete run -/
 
-theorem saves_viewOf (fidb user : FileC) (uuid s : Str) (hs : s ≠ defaultSect) (k : Name) (ty : CfgTy)
-    (v d : CfgVal) (libCfg : Map) (low : Option CfgVal) (g : Str)
+theorem saves_viewOf (ns1 : Map) (fidb user : FileC) (uuid s : Str) (hs : s ≠ defaultSect) (k : Name) (ty : CfgTy)
+    (v d : CfgVal) (libCfg : Map) (lowSave low : Option CfgVal) (g : Str)
     (hg : (reloadCfg (loadUser fidb user) user uuid).defaults.lookup "clientuid".toList = some g) :
-    saves (viewOf fidb user uuid s k ty v ((libCfg.lookup k).getD d) low) =
+    saves (viewOf ns1 fidb user uuid s k ty v ((libCfg.lookup k).getD d) lowSave low) =
       turnSaves (reloadCfg (loadUser fidb user) user uuid) libCfg s k v d g := by
   simp only [saves, uidSkip, stored, viewOf, turnSaves, hg, Ini.look, hs, if_false]
 
-theorem keptText_viewOf (fidb user : FileC) (uuid s : Str) (hs : s ≠ defaultSect) (k : Name) (ty : CfgTy)
-    (v ld : CfgVal) (low : Option CfgVal) :
-    keptText (viewOf fidb user uuid s k ty v ld low) =
+theorem keptText_viewOf (ns1 : Map) (fidb user : FileC) (uuid s : Str) (hs : s ≠ defaultSect) (k : Name) (ty : CfgTy)
+    (v ld : CfgVal) (lowSave low : Option CfgVal) :
+    keptText (viewOf ns1 fidb user uuid s k ty v ld lowSave low) =
       ((((reloadCfg (loadUser fidb user) user uuid).look s k).map strip).or (fileLookup fidb s k)).or
         ((((reloadCfg (loadUser fidb user) user uuid).look defaultSect k).map strip).or
           (fileLookup fidb defaultSect k)) := by
